@@ -260,6 +260,19 @@ func genJSON(r *Rng, depth int) string {
 	case 2:
 		return "null"
 	case 3:
+		if r.Intn(3) == 0 {
+			// strings of exactly / around the length of a hex hash (64), made of hex digits or not
+			l := r.Pick(64, 64, 63, 65, 62, 66, 128)
+			b := make([]byte, l)
+			alpha := "0123456789abcdef"
+			if r.Intn(2) == 0 {
+				alpha = "0123456789abcdefgxyzGXYZ -"
+			}
+			for i := range b {
+				b[i] = alpha[r.Intn(len(alpha))]
+			}
+			return `"` + string(b) + `"`
+		}
 		return []string{"true", "false", `"zz"`, `""`}[r.Intn(4)]
 	case 4, 5:
 		n := r.Intn(4)
